@@ -20,6 +20,8 @@ CLAIMED = {
              note="N=3, 2 features; fmean->sum/len, stdev->uninterpreted sigma(window) with recorded argument; features with no known value in the window and mode ties outside the claim"),
  'C14': dict(design='C14', text="SupervisedSimulation / Environments.from_supervised on (X,Y) data with z3-integer labels (label coincidence decided by the solver), symbolic regression targets and probe actions, enumerated multi-label sets with list-valued probe actions (Jaccard as exact rational), and end-to-end on CSV/ARFF/LibSVM/Manik text with the label column by index or header, sparse and dense features, with and without take: action set == distinct labels, context == features without the label, reward 1 exactly for the true label.",
              note="<=3 examples; text sources over a small concrete vocabulary (csv/re are C); nominal ARFF labels offer the declared levels"),
+ 'C10': dict(design='C10', text="Chains of Repr, Flatten, Sparsify, Densify, Noise(action), Batch, Finalize and the Environments shortcuts run on interactions of 7 action kinds whose reward values, logged reward and probability are symbolic reals: for every position the i-th action of the new representation must earn the i-th original reward (list, BinaryReward, DiscreteReward, L1Reward or arbitrary callable) as a z3-decided identity, and the logged action must stay the same member of the action set.",
+             note="single filters + 8 two-filter chains quick, all ordered pairs thorough; actions are concrete objects"),
  'C13': dict(design='C13', text="Row pipelines built from the real HeadRows/EncodeRows/DropRows/LabelRows over list/tuple/LazyDense/dict/LazySparse bases run on symbolic integer cells with affine encoders; symbolic positions and row predicates fork in the solver; every access kind, in forward and reverse order, is compared with an eager list/dict model; plus the real ArffReader's lazy rows over a grid of missing-value placements.",
              note="width<=3 (4 thorough), 2 rows; EncodeCatRows, negative/out-of-range positions outside the claim"),
  'C16': dict(design='C16', text="Random/Fixed/BanditEpsilon/BanditUCB and Misguided wrappers run through solver-enumerated histories (3 rounds, changing action sets incl. unseen and disappearing actions, hashable/int/dense/sparse actions, on-policy and logged learning) with symbolic rewards; ties between value estimates and UCB bounds (sqrt by contract) are decided by z3 so every tie pattern is reached; score() must be a distribution over the offered actions and predict() must return an offered action with exactly its score. Corral: enumerated concrete grid only (its root search is not symbolically encodable).",
